@@ -4,10 +4,13 @@ package ice
 
 import (
 	"encoding/json"
+	"errors"
 	"fmt"
 	"os"
 	"strings"
 	"time"
+
+	"github.com/pion/ice/v4/internal/taskloop"
 )
 
 func init() {
@@ -156,8 +159,14 @@ func (pw *pairWorld) restartSide(s *sideState) {
 	s.ufrag = fmt.Sprintf("%sg%d", s.ufrag[:9], s.gen)
 	s.pwd = fmt.Sprintf("%sg%d", s.pwd[:28-4], s.gen)
 	if err := s.agent.Restart(s.ufrag, s.pwd); err != nil {
-		pw.problem("", "Restart: %v", err)
+		if !errors.Is(err, ErrClosed) && !errors.Is(err, taskloop.ErrClosed) { // a handler may close the agent in the middle of the exchange (C08)
+			pw.problem("", "Restart: %v", err)
+		}
 
+		return
+	}
+	settle() // let the handlers run that the restart triggered: one of them may close the agent (C08)
+	if s.agent.loop.Err() != nil {
 		return
 	}
 	kinds, prios := pw.cfg.KindsA, pw.cfg.PrioA
@@ -178,7 +187,9 @@ func (pw *pairWorld) offerArrives() {
 	s, peer := pw.side[pw.exchInit], pw.side[1-pw.exchInit]
 	pw.restartSide(peer)
 	if err := peer.agent.SetRemoteCredentials(s.ufrag, s.pwd); err != nil {
-		pw.problem("", "SetRemoteCredentials(responder): %v", err)
+		if !errors.Is(err, ErrClosed) && !errors.Is(err, taskloop.ErrClosed) {
+			pw.problem("", "SetRemoteCredentials(responder): %v", err)
+		}
 	}
 	pw.signalAll(s, peer)
 	pw.exch = 2
@@ -187,7 +198,9 @@ func (pw *pairWorld) offerArrives() {
 func (pw *pairWorld) answerArrives() {
 	s, peer := pw.side[pw.exchInit], pw.side[1-pw.exchInit]
 	if err := s.agent.SetRemoteCredentials(peer.ufrag, peer.pwd); err != nil {
-		pw.problem("", "SetRemoteCredentials(initiator): %v", err)
+		if !errors.Is(err, ErrClosed) && !errors.Is(err, taskloop.ErrClosed) {
+			pw.problem("", "SetRemoteCredentials(initiator): %v", err)
+		}
 	}
 	pw.signalAll(peer, s)
 	pw.exch = 0
